@@ -647,6 +647,36 @@ def numeric_checks(tier, seed):
         if _safe(lambda: (z < y and y > z and z <= y and not (z == y) and z == LogRepFloat(0.0) and z == 0.0 and not (z > 0.0))) is not True:
             report(f"C20:zero:compare:{_mc(v)}", f"zero weight does not compare below the weight of log-value {v!r}", {"fn": "zero", "args": [v]})
 
+    # plain value <-> log-value conversions and in-place accumulation of plain numbers
+    for v in sorted(set(bases) | {709.0, 709.78, 709.79, 710.0, -708.0, -744.0, -745.0, -745.2, -746.0, 1.7e308, -1.7e308}):
+        n += 1
+        got = _safe(lambda: LogRepFloat(log_val=v).val)
+        with localcontext() as c:
+            c.prec = PREC
+            ex = _safe_exp(Decimal(v)) if v < 709.782712893384 else None
+        if ex is None:
+            ok = got == math.inf
+        elif v < -745.14:
+            ok = got == 0.0 or (isinstance(got, float) and 0.0 <= got <= 5e-324)
+        else:
+            ok = (not math.isnan(got)) and math.isfinite(got) and abs(Decimal(got) - ex) <= Decimal(4 * EPS * max(1.0, abs(v))) * ex + Decimal(5e-324)
+        if not ok:
+            report(f"C20:val:{_mc(v)}", f"LogRepFloat(log_val={v!r}).val = {got!r}, exact {'overflow (inf)' if ex is None else repr(float(ex))}", {"fn": "val", "args": [v]})
+    for x in (5e-324, 2.2250738585072014e-308, 1e-300, 1e-17, 0.5, 1.0, 1.0000000000000002, 3.0, 1e17, 1e300, 1.7976931348623157e308, 0.0, -0.0, 7, True):
+        n += 1
+        got = _safe(lambda: LogRepFloat(x).log_val)
+        want = math.log(x) if x > 0 else -math.inf
+        if math.isnan(got) or (got != want and not abs(got - want) <= 2 * EPS * abs(want)):
+            report("C20:constructor", f"LogRepFloat({x!r}).log_val = {got!r}, exact {want!r}", {"fn": "constructor", "args": [float(x)]})
+    for v in bases:
+        for pl in (5e-324, 1e-300, 1e-30, 0.5, 1.0, 3.0, 1e17, 1e300):
+            n += 1
+            lp = math.log(pl)
+            hi, lo = (v, lp) if v >= lp else (lp, v)
+            ex = ora_log_sum_exp(hi, lo)
+            got = _iaddp(LogRepFloat, v, pl)
+            if not _close(got, ex, 2 * max(1.0, abs(hi), abs(float(ex)))):
+                report(f"C20:iadd-plain:{_mc(v)}", f"x += {pl!r} with x of log-value {v!r}: log-value {got!r}, exact {float(ex)!r}", {"fn": "iaddplain", "args": [v, pl]})
     # in-place accumulation sequences of arbitrary weights against the exact sum
     nseq = 30 if tier == "quick" else 300
     for i in range(nseq):
@@ -758,7 +788,7 @@ def offset_invariance(tier):
     for cls_name in ("MultinomialDynamicIntegrationTransition", "SliceDynamicIntegrationTransition"):
         cls = getattr(mici.transitions, cls_name)
         ref = chain(0.0, cls)
-        for offset in (800.0, -800.0, 1.0e4, -1.0e4) + ((1.0e5, -1.0e5, 745.0, -709.0) if tier != "quick" else ()):
+        for offset in (800.0, -800.0, 1.0e4, -1.0e4, 35.0, -35.0, 100.0) + ((1.0e5, -1.0e5, 745.0, -709.0, -100.0, 20.0, -20.0, 300.0) if tier != "quick" else ()):
             runs += 1
             rp = {"fn": "offset", "args": [cls_name, offset], "tier": tier}
             try:
